@@ -307,6 +307,8 @@ def random_runs(rng, n_runs, algos, max_n=40):
                    form=str(rng.choice(["function", "estimator"])))
         if metric == "linf" and rng.randint(3) == 0:
             run["dtype"] = str(rng.choice(["uint8", "uint16", "uint32"]))      # unsigned data, callable metric
+        elif metric != "linf" and rng.randint(8) == 0:
+            run["dtype"] = str(rng.choice(["uint8", "uint16"]))                # unsigned data, named metric
         if run["dtype"].startswith("float"):
             run["scale"] = float(rng.choice([1.0, 2.0 ** -30, 2.0 ** -30, 4096.0]))
         if algo == "kcenters":
